@@ -53,6 +53,19 @@ impl Timer {
     ///
     /// The result is cached.
     pub fn precision(self) -> FineDuration {
+        // Under a live simulation: no process-wide cache, measure on the
+        // virtual clock (or use the configured override).
+        #[cfg(divan_verif)]
+        if ::dsim::clock::active() {
+            ::dsim::clock::precision_begin();
+            let precision = match ::dsim::clock::precision_override() {
+                Some(picos) => FineDuration { picos },
+                None => self.measure_precision(),
+            };
+            ::dsim::clock::precision_end(precision.picos);
+            return precision;
+        }
+
         static CACHED: [OnceLock<FineDuration>; Timer::COUNT] =
             [OnceLock::new(), OnceLock::new()];
 
@@ -140,6 +153,11 @@ impl Timer {
     ///
     /// `min_time` and `max_time` do not consider this as benchmarking time.
     pub fn bench_overheads(self) -> &'static TimedOverhead {
+        #[cfg(divan_verif)]
+        if let Some(overheads) = crate::verif::sim_overheads() {
+            return overheads;
+        }
+
         // Miri is slow, so don't waste time on this.
         if cfg!(miri) {
             return &TimedOverhead::ZERO;
